@@ -1,6 +1,7 @@
 import UVerif.Driver.Core
 import UVerif.Driver.Posit
 import UVerif.Driver.Quire
+import UVerif.Driver.Except
 
 namespace UVerif.Driver
 
@@ -11,6 +12,7 @@ def lookupHandler (fam : String) : Option Handler :=
   | "quire" => some quireHandler
   | "pconv" => some pconvHandler
   | "thr" => some thrHandler
+  | "exc" => some excHandler
   | _ => none
 
 end UVerif.Driver
